@@ -177,6 +177,44 @@ func runC03(c *Ctx) {
 		c.Check("F", fnName(fn)+"/compares round proposer with own address", ok, fn.Pos(), 2, "isProposer must compare cs.Validators.GetProposer().Address with privValidator.GetAddress()")
 	}
 
+	lockRules(c)
+
+	// ---- signVote: signed content ------------------------------------------------------------------
+	if fn := c.Fn("consensus", "ConsensusState", "signVote"); fn != nil {
+		want := map[string]string{"Height": `^cs\.RoundState\.Height$`, "Round": `^cs\.RoundState\.Round$`, "Type": `^signedMsgType$`, "ValidatorAddress": `GetAddress\(cs\.privValidator\)`}
+		got := map[string]string{}
+		for _, in := range findInstrs(fn, StoreTo(`^&alloc:complit:types\.Vote\.`)) {
+			st := in.(*ssa.Store)
+			f := strings.TrimPrefix(pathOf(st.Addr), "&alloc:complit:types.Vote.")
+			got[f] = pathOf(st.Val)
+		}
+		for _, f := range []string{"Height", "Round", "Type", "ValidatorAddress"} {
+			c.Check("F", fnName(fn)+"/Vote."+f+" is "+want[f], re(want[f]).MatchString(got[f]), fn.Pos(), 1, "stored value: "+got[f])
+		}
+		var bid string
+		for _, in := range findInstrs(fn, StoreTo(`^&alloc:complit:types\.Vote\.BlockID\.`)) {
+			st := in.(*ssa.Store)
+			bid += pathOf(st.Addr) + "=" + pathOf(st.Val) + ";"
+		}
+		c.Check("F", fnName(fn)+"/Vote.BlockID is {hash, header}", strings.Contains(bid, "BlockID.Hash=hash;") && strings.Contains(bid, "BlockID.PartsHeader=header;"), fn.Pos(), 2, bid)
+		c.Guarded(fn, "SignVote", CallTo(`PrivValidator\)\.SignVote$`, ""))
+		sv := findInstrs(fn, CallTo(`PrivValidator\)\.SignVote$`, ""))
+		c.Check("O", fnName(fn)+"/exactly one SignVote", len(sv) == 1, fn.Pos(), len(sv), fmt.Sprintf("%d SignVote calls", len(sv)))
+	}
+
+	// ---- commit only a validated +2/3 block (shared with C01) --------------------------------------------
+	c01CommitPath(c)
+
+	// ---- validateBlock checklist -------------------------------------------------------------------------
+	validateBlockChecklist(c)
+}
+
+// lockRules: prevote the lock, precommit only on a polka, unlock only on a later polka (shared by C01 and C03).
+func lockRules(c *Ctx) {
+	tPrevote := c.P.Const("proto/kardiachain/types", "PrevoteType")
+	tPrecommit := c.P.Const("proto/kardiachain/types", "PrecommitType")
+	deferSel := func(in ssa.Instruction) bool { _, ok := in.(*ssa.Defer); return ok }
+	_ = deferSel
 	// ---- doPrevote ---------------------------------------------------------------------------------
 	if fn := c.Fn("consensus", "ConsensusState", "doPrevote"); fn != nil {
 		sign := CallTo(csT+`\.signAddVote$`, "")
@@ -273,32 +311,4 @@ func runC03(c *Ctx) {
 		}
 	}
 
-	// ---- signVote: signed content ------------------------------------------------------------------
-	if fn := c.Fn("consensus", "ConsensusState", "signVote"); fn != nil {
-		want := map[string]string{"Height": `^cs\.RoundState\.Height$`, "Round": `^cs\.RoundState\.Round$`, "Type": `^signedMsgType$`, "ValidatorAddress": `GetAddress\(cs\.privValidator\)`}
-		got := map[string]string{}
-		for _, in := range findInstrs(fn, StoreTo(`^&alloc:complit:types\.Vote\.`)) {
-			st := in.(*ssa.Store)
-			f := strings.TrimPrefix(pathOf(st.Addr), "&alloc:complit:types.Vote.")
-			got[f] = pathOf(st.Val)
-		}
-		for _, f := range []string{"Height", "Round", "Type", "ValidatorAddress"} {
-			c.Check("F", fnName(fn)+"/Vote."+f+" is "+want[f], re(want[f]).MatchString(got[f]), fn.Pos(), 1, "stored value: "+got[f])
-		}
-		var bid string
-		for _, in := range findInstrs(fn, StoreTo(`^&alloc:complit:types\.Vote\.BlockID\.`)) {
-			st := in.(*ssa.Store)
-			bid += pathOf(st.Addr) + "=" + pathOf(st.Val) + ";"
-		}
-		c.Check("F", fnName(fn)+"/Vote.BlockID is {hash, header}", strings.Contains(bid, "BlockID.Hash=hash;") && strings.Contains(bid, "BlockID.PartsHeader=header;"), fn.Pos(), 2, bid)
-		c.Guarded(fn, "SignVote", CallTo(`PrivValidator\)\.SignVote$`, ""))
-		sv := findInstrs(fn, CallTo(`PrivValidator\)\.SignVote$`, ""))
-		c.Check("O", fnName(fn)+"/exactly one SignVote", len(sv) == 1, fn.Pos(), len(sv), fmt.Sprintf("%d SignVote calls", len(sv)))
-	}
-
-	// ---- commit only a validated +2/3 block (shared with C01) --------------------------------------------
-	c01CommitPath(c)
-
-	// ---- validateBlock checklist -------------------------------------------------------------------------
-	validateBlockChecklist(c)
 }
